@@ -122,6 +122,9 @@ def case_vec(run, i):
         if hasattr(x, "index"):
             pw = type(x)(pw, index=x.index)
         _safe(S.savgol, x, widths[0], pw)
+        if i % 5 == 3:
+            _safe(S.savgol, x, widths[0], np.ones(len(x), dtype=int))      # whole-number weights, as a column of 1s read from a file
+            run.extra["savgol:integer-weights"] += 1
         _safe(S.savgol, x, None, pw, int(rng.choice([5, 7, 11])), 3, int(rng.choice([1, 2, 4])))
     run.end_case(fp=rt.fingerprint([a, w, widths], 12), nontrivial=len(a) >= 2,
                  sample={"kind": kind, "a": np.asarray(a)[:8], "w": np.asarray(w)[:8], "widths": widths} if i % 701 == 0 else None)
